@@ -447,6 +447,19 @@ func init() {
 		}
 		return r
 	}
+	// *net.TCPConn as handed to the TCP relay: only the remote address and Close are used
+	regStub("(*net.conn).RemoteAddr", func(ex *Exec, fn *ssa.Function, args []Value) Value {
+		t := ex.namedType("net", "TCPAddr")
+		o := ex.newCells(t, ex.zero(t), "tcpaddr")
+		return &IfaceV{Typ: types.NewPointer(t), Val: &Ptr{Obj: o}}
+	})
+	regStub("(*net.TCPAddr).AddrPort", func(ex *Exec, fn *ssa.Function, args []Value) Value {
+		np := ex.prog.ImportedPackage("net/netip")
+		a4 := TupleV{BV(8, 127), BV(8, 0), BV(8, 0), BV(8, 1)}
+		ip := ex.callFunction(np.Func("AddrFrom4"), []Value{a4}, nil, nil)
+		return ex.callFunction(np.Func("AddrPortFrom"), []Value{ip, BV(16, 40000)}, nil, nil)
+	})
+	regStub("(*net.conn).Close", func(ex *Exec, fn *ssa.Function, args []Value) Value { return &IfaceV{} })
 	suffixStubs["vfStorePath"] = func(ex *Exec, fn *ssa.Function, args []Value) Value {
 		return ex.stringValue("/vf/store.json")
 	}
